@@ -42,13 +42,15 @@ def dump(obj, memo=None, depth=0):
     if isinstance(obj, (list, tuple)):
         return [dump(x, memo, depth + 1) for x in obj]
     if isinstance(obj, (set, frozenset)):
-        return sorted((dump(x, memo, depth + 1) for x in obj), key=repr)
+        # sets iterate in address order: dump each element with its own memo so that the result (and the shared
+        # first-visit numbering) does not depend on that order
+        return sorted((dump(x, {}, depth + 1) for x in obj), key=repr)
     if isinstance(obj, VMF):
-        buf = io.StringIO()
-        obj.export(buf, inc_version=False)
-        return buf.getvalue()
+        # VMF.export() writes to the map (mapversion bookkeeping), so the entity lump is dumped without it
+        return ('VMF', [dump(e, memo, depth + 1) for e in [obj.spawn] + list(obj.entities)])
     if isinstance(obj, Entity):
-        return ('Entity', obj.id, sorted(obj.items()))
+        return ('Entity', list(obj.items()),
+                [(o.output, o.target, o.input, o.params, o.delay, o.times, o.inst_out, o.inst_in) for o in obj.outputs])
     if isinstance(obj, Keyvalues):
         return obj.serialise()
     if isinstance(obj, zipfile.ZipFile):
